@@ -422,6 +422,19 @@ func Eval[C any](t TB, property, source string, c C, check func(C) Outcome) {
 		return
 	}
 	rec := &failRecord{Property: property, Case: cj, Failure: o.Fail, Labels: o.Labels, Source: source}
+	if os.Getenv("VERIF_SURVEY") == "1" && source != "replay" {
+		// triage aid (never used by registered commands): log every failure and keep going
+		record(cj, h, &o, false)
+		if d := outDir(); d != "" {
+			b, _ := json.Marshal(rec)
+			f, err := os.OpenFile(filepath.Join(d, "survey.jsonl"), os.O_APPEND|os.O_CREATE|os.O_WRONLY, 0o644)
+			if err == nil {
+				f.Write(append(b, '\n'))
+				f.Close()
+			}
+		}
+		return
+	}
 	writeFail(rec)
 	t.Fatalf("VERIF-FAIL property=%s kind=%s sig=%q msg=%s labels=%v", property, o.Fail.Kind, o.Fail.Sig, o.Fail.Msg, o.Labels)
 }
